@@ -162,14 +162,12 @@ def wrappers(chk, kind, st, arr, els, rows, total, r, with_index):
             except Exception as e:  # noqa: BLE001
                 chk.violation(f"DaskGeoSeries.total_bounds/{kind}/filtered-raises-{common.err_kind(e)}", dict(rep, error=repr(e)[:300]))
     mixed = any(any(x == "nan" for x in row) and not all(x == "nan" for x in row) for row in rows)
-    if with_index and mixed:
-        chk.drifted("an element has a bounds row that is NaN on one axis only (a half-defined box): the spatial index holds boxes, its total_bounds is not compared")
-    if with_index and n >= 1 and not mixed:
+    if with_index and n >= 1:
         try:
             sx = arr.copy().sindex  # fresh object: no cached index
             it = canon_row(sx.total_bounds)
             if it != total:
-                cls = "with-nan-row" if any(all(x == "nan" for x in row) for row in rows) else "no-nan-row"
+                cls = "half-defined-row" if mixed else "with-nan-row" if any(all(x == "nan" for x in row) for row in rows) else "no-nan-row"
                 chk.violation(f"sindex.total_bounds/{kind}/differs/{cls}", dict(rep, impl=it, model=total))
         except Exception as e:  # noqa: BLE001
             chk.violation(f"sindex.total_bounds/{kind}/raises-{common.err_kind(e)}", dict(rep, error=repr(e)[:300]))
@@ -248,6 +246,13 @@ def pruned_read_columns(chk, r, tier):
         shutil.rmtree(tmp, ignore_errors=True)
 
 
+def one_axis(el, axis, bad):
+    """the element with every coordinate of one axis replaced by a non-finite value"""
+    if el and isinstance(el[0], list):
+        return [one_axis(x, axis, bad) for x in el]
+    return [bad if i % 2 == axis else c for i, c in enumerate(el)]
+
+
 def run_cases(chk, tier):
     r = common.rng(PROP)
     rounds = 6 if tier == "quick" else 40
@@ -259,6 +264,15 @@ def run_cases(chk, tier):
         for els in fixed:
             arr = geo.make_array(kind, els, "float64")
             compare(chk, kind, "float64", arr, els, [])
+        # an element that is undefined on one axis only (all its x, or all its y, non-finite): its defined axis still counts (D41)
+        base = [e for e in geo.structured_elements(kind, r, 12, mag=30) if e is not None and geo.verts_of(kind, e)][:3]
+        for axis, bad in ((0, float("nan")), (1, float("inf")), (0, float("-inf"))):
+            for pos in range(len(base)):
+                els = [one_axis(e, axis, bad) if i == pos else e for i, e in enumerate(base)] + [None]
+                arr = geo.make_array(kind, els, "float64")
+                rows, total = compare(chk, kind, "float64", arr, els, [])
+                wrappers(chk, kind, "float64", arr, els, rows, total, r, with_index=True)
+                chk.count("half-defined-elements")
         for k in range(rounds):
             st = geo.SUBTYPES[k % len(geo.SUBTYPES)]
             special = 0.15 if st.startswith("float") and k % 2 == 0 else 0.0
